@@ -122,6 +122,11 @@ func (c *Content) WithFileInfoDefaults(umask fs.FileMode, mtime time.Time) *Cont
 	}
 	if cc.FileInfo == nil {
 		cc.FileInfo = &ContentFileInfo{}
+	} else {
+		// work on a copy: the caller's FileInfo belongs to the parsed
+		// configuration, which is shared by every packaging started from it
+		fileInfo := *cc.FileInfo
+		cc.FileInfo = &fileInfo
 	}
 	if cc.FileInfo.Owner == "" {
 		cc.FileInfo.Owner = "root"
